@@ -529,9 +529,10 @@ type letDef struct {
 // the callee returns (in the body of the function under contract) and NAME denotes that value in the
 // postconditions; if the callee is called several times the last call wins.
 type afterDef struct {
-	Callee string
-	Name   string
-	Expr   *CExpr
+	Callee  string
+	Name    string
+	Expr    *CExpr
+	Ordinal int // 0: after every call (the last one wins); N > 0: after the N-th call only
 }
 
 type SpecFunc struct {
@@ -872,7 +873,13 @@ func (db *ContractDB) LoadFile(path string) error {
 				if err != nil {
 					return fmt.Errorf("%s:%d: %v", path, rc.line, err)
 				}
-				cur.Afters = append(cur.Afters, afterDef{f[0], f[2], e})
+				callee, ord := f[0], 0
+				if i := strings.IndexByte(callee, '#'); i > 0 {
+					// after <callee>#N let ... : captured after the N-th call of <callee> only
+					fmt.Sscan(callee[i+1:], &ord)
+					callee = callee[:i]
+				}
+				cur.Afters = append(cur.Afters, afterDef{callee, f[2], e, ord})
 			case "replay":
 				cur.ReplayExpr = strings.TrimSpace(rc.text)
 			case "replayhelp":
